@@ -2,11 +2,16 @@
 
    Kind E (clean catalogue, every schedule): the number of body invocations of node i never exceeds the number of invocations
    in the reference evaluation, which executes a node once per (re-)iteration it belongs to, plus its retry attempts.
-   Kind G (all programs, all schedules) is not proved (the check-then-mark of _execute_node being atomic is what the seeded
-   mutant C04-1 breaks; it is caught by the oracle on the implementation and by the correspondence). FALSE in general for the
-   counts of known findings D9, D12, D17 only. *)
+   Kind G (EVERY program, EVERY schedule): an execution of a node begins (ghost event OProcessed, emitted where _execute_node marks
+   the node processed, in the same atomic segment as the test of that mark) only if no execution of it has begun since its last
+   invalidation; so any two executions of one node are separated by an invalidation of the earlier one (OHide: a recurrent
+   re-iteration hiding the subgraph, or the forced default after exhaustion), whoever requests the node and however the requests
+   interleave; and the processed mark in the storage is exactly that fact. (The seeded change C04-1 -- an await between the test and
+   the mark -- is precisely what this theorem's proof would not survive in the model; on the implementation it is caught by the
+   oracle and the correspondence.) Not proved in general: that every body invocation belongs to such an execution and stays within
+   its retry attempts (C12 covers one execution). The kind-E counts are FALSE only on known findings D9, D12, D17. *)
 From MLPE Require Import Engine.Run Spec.Dataflow Proofs.ExecLemmas Explore.StateEq Explore.Erase Explore.Explorer Explore.Safe
-     Catalogue.Programs Catalogue.Certified Proofs.CertLemmas.
+     Catalogue.Programs Catalogue.Certified Proofs.CertLemmas Proofs.ProcessedInv.
 
 Definition C04_statement (P : prog) : Prop :=
   forall st i, reachable P st -> ctr_get (CBody i) st <= ref_invocations P i.
@@ -17,6 +22,20 @@ Proof.
   apply safe_counts_bound. exact H.
 Qed.
 Print Assumptions C04_catalogue.
+
+Theorem C04_an_execution_begins_only_when_unmarked :
+  forall P st, reachable P st ->
+    (forall n, exists_processed n (st_store st) = last_proc n (st_trace st)) /\ wf_proc (st_trace st).
+Proof. exact reachable_proc_ok. Qed.
+Print Assumptions C04_an_execution_begins_only_when_unmarked.
+
+Theorem C04_two_executions_are_separated_by_an_invalidation :
+  forall P st n l1 l2 l3, reachable P st -> st_trace st = l1 ++ OProcessed n :: l2 ++ OProcessed n :: l3 -> In (OHide n) l2.
+Proof.
+  intros P st n l1 l2 l3 Hr E. destruct (reachable_proc_ok P st Hr) as [_ H]. rewrite E in H.
+  exact (two_executions_are_separated n l1 l2 l3 H).
+Qed.
+Print Assumptions C04_two_executions_are_separated_by_an_invalidation.
 
 (* a node shared by the main DAG, a switch branch and the output is executed exactly as often as the reference does: once *)
 Example C04_shared_node_once :
